@@ -26,8 +26,8 @@ def main() -> int:
         p = prod_sun.SunElevationProducerCompare(az, sys.argv[6])
     else:
         p = prod_sun.SunAzimuthProducerCompare(az)
-    signal.signal(signal.SIGALRM, _alarm)
-    signal.setitimer(signal.ITIMER_REAL, budget)
+    signal.signal(signal.SIGVTALRM, _alarm)
+    signal.setitimer(signal.ITIMER_VIRTUAL, budget)
     t0 = time.perf_counter()
     try:
         try:
@@ -39,9 +39,9 @@ def main() -> int:
         except Exception as e:  # noqa: BLE001
             r = ['raise', type(e).__name__]
         finally:
-            signal.setitimer(signal.ITIMER_REAL, 0)
+            signal.setitimer(signal.ITIMER_VIRTUAL, 0)
     except Budget:
-        signal.setitimer(signal.ITIMER_REAL, 0)
+        signal.setitimer(signal.ITIMER_VIRTUAL, 0)
         r = ['budget']
     json.dump([r, round(time.perf_counter() - t0, 2)], sys.stdout)
     return 0
